@@ -13,6 +13,17 @@ from __future__ import annotations
 import ast
 
 
+# calls that do not pass a same-named parameter on, confirmed by reading (module, caller, callee, parameter): reason
+NOT_FORWARDED = {
+    ("crystal/crystal.py", "Crystal.symmetry_unique_molecules", "unit_cell_molecules", "bond_tolerance"):
+        "the second call, made to label the images, relies on the memo filled by the first call a few lines above (which passes bond_tolerance); "
+        "argument-dependent memos are the open finding R04.8",
+    ("fmt/cif.py", "Cif.parse_quoted_block", "parse_quote", "delimiter"):
+        "parse_quoted_block is only ever called with its default delimiter ';', which is parse_quote's default as well (the multi-line text block of "
+        "CIF); a latent inconsistency of the source, not reachable through the reader",
+}
+
+
 def rid_of(chk):
     return f"R{chk.pid[1:]}.18"
 
@@ -72,6 +83,43 @@ def run(chk):
                     chk.ob(rid, rel, q, f"parameter `{p}` is read or handed on: the body never reads it although it calls {nm}(...), which takes a "
                            f"`{p}` of its own (it now runs with its default)", False, node=c, fingerprint=f"dropped:{q}:{p}",
                            expected=f"{nm}(..., {p}={p})", found=ast.unparse(c)[:140])
+    # second clause: a call of a same-class method / same-module function that has a parameter named like one of the caller's parameters passes
+    # that parameter (by keyword, by position or through **kwargs) -- at every such call, also when the caller reads the parameter elsewhere
+    for rel, quals in sorted(sites.items()):
+        try:
+            mod = chk.repo.module(rel)
+        except Exception:      # noqa: BLE001
+            continue
+        for q in sorted(mod.funcs):
+            fn = mod.funcs.get(q)
+            if not isinstance(fn, (ast.FunctionDef, ast.AsyncFunctionDef)):
+                continue
+            cls = q.rsplit(".", 1)[0] if "." in q else None
+            ps = [p for p in _params(fn) if p not in ("self", "cls")]
+            for c in ast.walk(fn):
+                if not isinstance(c, ast.Call):
+                    continue
+                t = None
+                if isinstance(c.func, ast.Attribute) and isinstance(c.func.value, ast.Name) and c.func.value.id in ("self", "cls") and cls:
+                    t = mod.funcs.get(f"{cls}.{c.func.attr}")
+                elif isinstance(c.func, ast.Name):
+                    t = mod.funcs.get(c.func.id)
+                if not isinstance(t, (ast.FunctionDef, ast.AsyncFunctionDef)) or t is fn:
+                    continue
+                tq = f"{cls}.{t.name}" if cls and f"{cls}.{t.name}" in mod.funcs and mod.funcs[f"{cls}.{t.name}"] is t else t.name
+                if not (q in quals or tq in quals):
+                    continue
+                tps = [p for p in _params(t) if p not in ("self", "cls")]
+                for p in ps:
+                    if p not in tps or (rel, q, t.name, p) in NOT_FORWARDED:
+                        continue
+                    passed = any(k.arg == p for k in c.keywords) or tps.index(p) < len(c.args) or any(k.arg is None for k in c.keywords) \
+                        or any(isinstance(a_, ast.Starred) for a_ in c.args)
+                    if not passed and not any(o.fingerprint == f"dropped:{q}:{p}" for o in chk.obs):
+                        bad += 1
+                        chk.ob(rid, rel, q, f"the call {t.name}(...) passes the caller's `{p}` on ({t.name} has a parameter of that name; without it "
+                               f"the callee runs with its own default whatever the caller was asked for)", False, node=c, fingerprint=f"not-passed:{q}:{t.name}:{p}",
+                               expected=f"{t.name}(..., {p}={p})", found=ast.unparse(c)[:140])
     if not bad:
         chk.ob(rid, "-", "-", f"no accepted parameter is dropped on the way to a callee that takes it ({n} functions with obligations read)", True,
                fingerprint="forwarding:none")
